@@ -18,7 +18,7 @@ import tornado.httputil
 import tornado.testing
 
 warnings.filterwarnings('ignore')
-sys.path.insert(0, '/repo')
+sys.path.insert(0, os.environ.get('VERIF_REPO', '/repo'))
 os.environ.setdefault('DIFFER_PARALLELISM', '2')
 
 
